@@ -72,7 +72,7 @@ from ..ast.fpyast import (
     Var,
     WhileStmt,
 )
-from ..number import REAL, Context
+from ..number import REAL, RM, Context
 from ..utils import Gensym
 from .cursor import Cursor, EditLog, ExprCursor
 from .utils import Declined, SiteRewriter, check_where, operands, rebuild
@@ -114,6 +114,11 @@ class _RoundInsertInstance(SiteRewriter):
             return Declined(
                 'the target rounds stochastically, so it is not an identity on '
                 'a value it represents'
+            )
+        if isinstance(e, (Add, Sub)) and getattr(self.ctx, 'rm', None) is RM.RTN:
+            return Declined(
+                'the target rounds toward negative, where terms that cancel '
+                'give -0 instead of +0'
             )
         stored = self.scopes.format_info.by_expr.get(e)
         # a stored bound may be a `Format`; `round_is_identity` wants the lift
